@@ -16,7 +16,8 @@ Record sstate := {
   ss_base : state;
   ss_schemas : list schema_row;               (* schemas table, insertion order *)
   ss_slogs : list (Z * Z * str);              (* INSERTED_SCHEMA logs: id, date, version *)
-  ss_logver : list (Z * str)                  (* logs.schema_version of the other logs *)
+  ss_logver : list (Z * (str * str))          (* the other logs: logs.schema_version, and the template the input named
+                                                 (Script.Template is part of the idempotency fingerprint) *)
 }.
 Definition sinit : sstate := {| ss_base := init_state; ss_schemas := []; ss_slogs := []; ss_logver := [] |}.
 
@@ -88,7 +89,8 @@ Section SchemaCtrl.
           if String.eqb template "" && (match m with Strict => true | Audit => false end) then None
           else match aget String.eqb (sc_templates r) template with
                | Some tps => Some (ICreate tps ts ref md amd false)
-               | None => None                                   (* "failed to find transaction template" — in BOTH modes *)
+               | None => if String.eqb template "" then Some i     (* audit, no template named: the submitted script runs *)
+                         else None                                 (* "failed to find transaction template" — in BOTH modes *)
                end
         | [] => if String.eqb template "" then Some i else None
         end
@@ -111,6 +113,8 @@ Section SchemaCtrl.
        s_thist := s_thist s; s_logs := s_logs s; s_next_tx := s_next_tx s; s_next_log := s_next_log s + 1; s_next_seq := s_next_seq s |}.
 
   Definition fail (ss : sstate) (e : serr) : sstep_result := SSR ss (SErr e).
+  Definition log_template (ss : sstate) (id : Z) : str :=
+    match List.find (fun e => fst e =? id) (ss_logver ss) with Some e => snd (snd e) | None => ""%string end.
 
   Definition sstep (m : mode) (now : Z) (ss : sstate) (i : sinput) : sstep_result :=
     let s := ss_base ss in
@@ -126,7 +130,8 @@ Section SchemaCtrl.
       end
     | SWrite v template o =>
       match find_ik (s_logs s) (o_ik o) with
-      | Some _ =>                                   (* idempotent replay: decided before any schema lookup *)
+      | Some l =>                                   (* idempotent replay: decided before any schema lookup *)
+        if negb (String.eqb (log_template ss (l_id l)) template) then fail ss (EBase EIdempotencyInput) else
         match step f now s o with
         | SR s' (ROk l t h) => SSR (with_base ss s') (SOk l t h)
         | SR s' (RErr e) => SSR (with_base ss s') (SErr (EBase e))
@@ -161,7 +166,7 @@ Section SchemaCtrl.
                 let l := {| l_id := s_next_log s1; l_payload := p; l_date := now; l_ik := o_ik o; l_input := o_in o |} in
                 let s2 := append_log s1 l in
                 if o_dry o then SSR (with_base ss (only_sequences s s2)) (SOk (l_id l) (payload_tx_id p) false)
-                else SSR {| ss_base := s2; ss_schemas := ss_schemas ss; ss_slogs := ss_slogs ss; ss_logver := ss_logver ss ++ [(l_id l, v)] |}
+                else SSR {| ss_base := s2; ss_schemas := ss_schemas ss; ss_slogs := ss_slogs ss; ss_logver := ss_logver ss ++ [(l_id l, (v, template))] |}
                          (SOk (l_id l) (payload_tx_id p) false)
             end
           end
